@@ -2,13 +2,14 @@ package main
 
 import (
 	"go/token"
+	"go/types"
 	"strings"
 
 	"golang.org/x/tools/go/ssa"
 )
 
 func init() {
-	register("C12", []string{"./src/cache/..."}, checkC12)
+	register("C12", []string{"./src/cache/...", "./src/fs/..."}, checkC12)
 	register("C14", []string{"./src/cache/..."}, checkC14)
 }
 
@@ -69,6 +70,7 @@ func (a *dcAnchors) tempAndFinal() (final, tmp *ssa.Call) {
 func checkC12(p *Prog, r *Report) {
 	r.Explanation = "Atomicity and agreement clauses of the directory cache. (1) temp-then-rename in dirCache.Store: the directory handed to storeFiles for writing is the '='-suffixed temp path (getFullPath(..., \"=\")), storeFiles passes that parameter (never the final path) to every writer (storeFile, storeCompressed), every file-creating call of the writers takes a path derived from it, and the single os.Rename(temp, final) is dominated by the storeFiles call; the final path is otherwise only marked and removed beforehand. (2) a miss for an absent key: retrieveFiles returns (false, nil) on the !PathExists edge and never (true, err); retrieve returns false whenever an error was returned (shared with C13). (3) archive writer/reader agreement for compressed entries: every entry visited by the store walk gets a tar header on every non-error path and regular entries get their content; every header read back passes ensureRetrieveReady (which removes what is in the way) before it is materialised, and each header kind the writer can emit has a reader case. (4) the uncompressed store and retrieve use the same tree primitive (RecursiveLink) in opposite directions. Byte fidelity itself is not decided."
 	r.NotCovered = []string{"byte fidelity of the restored tree", "two processes storing the same key concurrently", "a crash inside rename(2)", "hard-link semantics of the host filesystem"}
+	p.walkSortedRule(r, "fs/E5.walk-sorted")
 	a := p.dirCache(r, "E5.temp-then-rename")
 	if a == nil {
 		return
@@ -476,6 +478,15 @@ func checkC14(p *Prog, r *Report) {
 		return
 	}
 	p.cleanWalkRules(r)
+	// prefix tests between cache paths (entry paths, protection marks) are component-bounded: //pkg:server must not
+	// stand for //pkg:server_test
+	{
+		n0 := len(r.Obs)
+		p.runPrefixRule(r, "E1.prefixbound", p.Funcs("cache"), 0)
+		if len(r.Obs) == n0 {
+			r.ok("E1.prefixbound", "no prefix test between two cache paths", "-", "", "no strings.HasPrefix/Contains/HasSuffix whose operands both derive from cache.Dir or the keys of the protection marks")
+		}
+	}
 	// (1)
 	rule := "E5.protection-established"
 	final, tmp := a.tempAndFinal()
@@ -684,6 +695,34 @@ func (p *Prog) cleanWalkRules(r *Report) {
 	})
 	if n == 0 {
 		r.unresolved("E10.walk-root-is-the-marked-prefix", "directory walk in dirCache.clean")
+	}
+	// the size of an entry depends on the entry alone: the total is the sum of the sizes, and evicting an entry subtracts
+	// its size; a size that depends on which entries were measured before (a shared "already seen" set) breaks that sum
+	{
+		shared := ""
+		nCalls := 0
+		for _, fn := range p.Funcs("cache") {
+			for _, ci := range callsInFn(fn, findSize) {
+				nCalls++
+				cc := callCommon(ci)
+				for _, a := range cc.Args {
+					switch a.Type().Underlying().(type) {
+					case *types.Map, *types.Pointer, *types.Slice, *types.Chan:
+						if isNilConst(a) {
+							continue
+						}
+						fresh := false
+						if mk, ok := a.(*ssa.MakeMap); ok && mk.Block() == ci.Block() {
+							fresh = true
+						}
+						if !fresh {
+							shared = typeString(a.Type()) + " in " + fn.Name()
+						}
+					}
+				}
+			}
+		}
+		r.check(nCalls > 0 && shared == "", "E5.bound-accounting", "an entry's size is measured independently of other entries", p.pos(findSize.Pos()), fnName(findSize), itoa(nCalls)+" call(s) of findSize, none handed state that outlives the call", "findSize is given state shared between entries ("+shared+", e.g. a set of inodes already counted): an entry measured after one it shares a hard-linked file with is under-counted, evicting the first subtracts the full size, and clean() stops while the unprotected entries still exceed the low-water mark")
 	}
 	follows := ""
 	for _, g := range withAnon(findSize) {
